@@ -9,7 +9,7 @@ import os
 import subprocess
 import sys
 
-from ..common import Violation, HarnessError, REPO, VERIF_DIR
+from ..common import Violation, HarnessError, REPO, VERIF_DIR, quiet_warnings
 
 LEVEL = 'exploration'
 
@@ -259,7 +259,7 @@ def metamorphic(ctx):
 
 def run(ctx):
     import warnings
-    warnings.simplefilter('ignore')
+    quiet_warnings()
     from pynetdicom2 import statuses
     ctx.rule = ('exhaustive product of all 65536 codes x (23 message classes + None); a case is '
                 'non-trivial when the code is 0, a PS3.7 Annex C general code, or lies in a '
